@@ -353,11 +353,27 @@ func C13(c *hx.Ctx) {
 		// incompressible data at any dictionary size; followed and preceded by compressed chunks
 		for v := 0; v < 2; v++ {
 			e := ref.NewL2Enc(4096)
-			raw := MakeData("random", 20000+v*45536, c.Seed+int64(v)+900)
-			lz := ref.ChunkSpec{Kind: "LRND", Props: ref.Props{LC: 3, LP: 0, PB: 2}, Ops: []ref.Op{{K: ref.OpLit, B: 'a'}, {K: ref.OpLit, B: 'b'}, {K: ref.OpMatch, Dist: 2, Len: 200}}}
+			raw := MakeData("random", 20001+v*45534, c.Seed+int64(v)+900) // 20001 / 65535: not multiples of four
+			// enough operations at every position state that the adaptive probabilities differ per state
+			var warm []ref.Op
+			for k := 0; k < 240; k++ {
+				switch {
+				case k < 8 || k%5 == 0 || k%7 == 3:
+					warm = append(warm, ref.Op{K: ref.OpLit, B: byte('a' + (k*k)%23)})
+				case k%3 == 0:
+					warm = append(warm, ref.Op{K: ref.OpMatch, Dist: int64(1 + k%6), Len: 2 + k%4})
+				default:
+					warm = append(warm, ref.Op{K: ref.OpShort})
+				}
+			}
+			lz := ref.ChunkSpec{Kind: "LRND", Props: ref.Props{LC: 3, LP: 0, PB: 2}, Ops: warm}
 			if v == 0 {
 				e.Add(lz)
 				e.Add(ref.ChunkSpec{Kind: "U", Raw: raw})
+				// a compressed chunk that continues the coder state across the stored chunk
+				if err := e.Add(ref.ChunkSpec{Kind: "L", Ops: warm[8:]}); err != nil {
+					c.Inconclusive("stored-chunk stream: %v", err)
+				}
 			} else {
 				e.Add(ref.ChunkSpec{Kind: "UD", Raw: raw})
 				lz.Kind = "LRN"
@@ -369,6 +385,29 @@ func C13(c *hx.Ctx) {
 			file := ref.Serialize([]ref.LStream{ref.BuildStream(4, []ref.BlockSpec{{L2: e.Out, Content: e.Pt, DictCode: 0, WithU: v == 1}})})
 			med = append(med, strm{fmt.Sprintf("xz-4k-stored-chunk-%d", len(raw)), "xz", file, e.Pt})
 		}
+		// trusted base: every stream of this family must decode to its plaintext with the reference decoder
+		okMed := med[:0]
+		for _, m := range med {
+			var got []byte
+			var derr error
+			switch m.format {
+			case "xz":
+				x := ref.DecodeXZ(m.data, ref.XZOpts{})
+				got, derr = x.Content, x.Err
+			case "alone":
+				x := ref.DecodeAlone(m.data, false)
+				got, derr = x.Out, x.Err
+			default:
+				x := ref.DecodeLZMA2(m.data, ref.L2Opts{DictSize: 4096})
+				got, derr = x.Out, x.Err
+			}
+			if derr != nil || !bytes.Equal(got, m.plain) {
+				c.Inconclusive("trusted base: the reference decoder does not reproduce the plaintext of %s: %v", m.name, derr)
+				continue
+			}
+			okMed = append(okMed, m)
+		}
+		med = okMed
 		pieces := []int{1, 7, 100, 8192, 70000}
 		parallel(len(med)*len(pieces), func(i int) {
 			s := med[i/len(pieces)]
